@@ -85,6 +85,14 @@ def check(run):
     rf, rn = cc.reuse_findings(recs)
     findings += rf
     evaluations += rn
+    # Encode leaves its source alone and is repeatable
+    sf0, sn0 = cc.source_findings(cases)
+    findings += sf0
+    evaluations += sn0
+    # the v2 [short]-prefixed positions at the size boundary: what is accepted decodes back to the value
+    zf, zn, zcases = cc.v2size_findings(recs, round_trip=True)
+    findings += zf
+    evaluations += zn
     # struct representations declared in source that are NOT accepted (unexported field) and decode-only struct probes (key naming no field)
     sf, sn = cc.structprobe_findings(recs)
     findings += sf
@@ -99,7 +107,7 @@ def check(run):
     #      interface{}, and destination reuse (a pre-filled variable of the same Go type), compared Go value by Go value
     repc = cc.rep_cases(usable)
     reuse = cc.reuse_cases(recs)
-    ccases += repc + reuse
+    ccases += repc + reuse + [c for c in zcases if c[0].endswith(".model")]
     if model_ok and ccases:
         ok, bad, log = cc.eval_cases("Cases_C11", [], ccases)
         if not ok:
